@@ -271,7 +271,8 @@ func (g *c15Gen) seq(depth int, out *[]c15Tok) {
 			var sub []c15Tok
 			g.seq(depth-1, &sub)
 			g.files[name] = sub
-			*out = append(*out, g.tag("tag", `include "`+name+`"`))
+			// (by whichever tag the file is pulled in: its whitespace is controlled like the root's)
+			*out = append(*out, g.tag("tag", pick(g.t, "incvia", []string{`include "` + name + `"`, `include "` + name + `"`, `ssi "` + name + `" parsed`, `include "` + name + `" with q=1`, `include "` + name + `" if_exists`})))
 		}
 		addText()
 	}
@@ -279,7 +280,7 @@ func (g *c15Gen) seq(depth int, out *[]c15Tok) {
 
 var _ = register(&propSpec{
 	ID:   "C15.doc",
-	Rule: "documents (optionally with included files, or a two- or three-level extends hierarchy in which every level contributes text) = constructs ({{ v }}, if/else, for/empty, with, set, include) separated by literal text with random runs of space/tab/CR/LF (also at BOF/EOF, between adjacent constructs, around embedded {# #}); every delimiter independently carries '-'; all four TrimBlocks x LStripBlocks settings; context values contain whitespace themselves. Oracle: byte-identical to the hand-stripped document compiled with all options off. Non-trivial: >= 1 whitespace run removed and >= 1 surviving; distinct by marked sources+options.",
+	Rule: "documents (optionally with files pulled in by include - plain, with a pair, if_exists - or ssi parsed, or a two- or three-level extends hierarchy in which every level contributes text) = constructs ({{ v }}, if/else, for/empty, with, set, include) separated by literal text with random runs of space/tab/CR/LF (also at BOF/EOF, between adjacent constructs, around embedded {# #}); every delimiter independently carries '-'; all four TrimBlocks x LStripBlocks settings; context values contain whitespace themselves. Oracle: byte-identical to the hand-stripped document compiled with all options off. Non-trivial: >= 1 whitespace run removed and >= 1 surviving; distinct by marked sources+options.",
 	Gen: func(t *rapid.T) any {
 		g := &c15Gen{t: t, files: map[string][]c15Tok{}}
 		var root []c15Tok
